@@ -76,7 +76,9 @@ func extractURL(req *http.Request) *url.URL {
 	if val := req.Header.Get("X-Forwarded-Uri"); len(val) != 0 {
 		if forwardedURI, err := url.Parse(val); err == nil {
 			rawPath = escapedPath(forwardedURI)
-			query = forwardedURI.Query().Encode()
+			// taken as received. Parsing and encoding it again would reorder and respell the parameters
+			// and silently drop those, which cannot be decoded
+			query = forwardedURI.RawQuery
 		}
 	}
 
